@@ -54,6 +54,19 @@ public:
       @returns the number of bytes read for decoding.
   */
   static uint decode(uint *c, uchar *r);
+
+  /** Checks if the first 'len' bytes of 'r' do not yet contain a whole
+      encoded number followed by, at least, one more byte.
+      @param r: the sequence being filled.
+      @param len: the number of bytes available in the sequence.
+      @returns true if more bytes are required.
+  */
+  static bool incomplete(const uchar *r, uint len) {
+    for (uint i = 0; i < len; i++)
+      if (r[i] & 0x80)
+        return len < (i + 2);
+    return true;
+  }
 };
 
 #endif /* _VBYTE_H */
